@@ -52,6 +52,35 @@ WrapperLinesNeverTagged(t, d) ==
      /\ (TagTouchesLine(t, d, e.lo + 1) => WrapperLineHarmless(t, d, e.lo + 1))
      /\ (TagTouchesLine(t, d, e.lc - 1) => WrapperLineHarmless(t, d, e.lc - 1))
 
+\* A wider class of tagged wrapper lines on which stepwise and at-once cleaning are still determined (C19), relative
+\* to the configurations of a chain (docs = the reference views of the first source under each of them).  Besides
+\* elements lying wholly on the wrapper line, the block e may hold ONE straddler x: a default-strategy element
+\* inside e's body with exactly one of its tags on the wrapper line k, the other tag standing at the edge of a
+\* body line (nothing but blanks on its outer side), that is ready in every configuration in which e is ready
+\* (it goes before or together with the wrapper line, so no tag of it is stranded), leaves the wrapper line text
+\* of its own, and leaves the block at least two lines.
+TagOnK(t, d, i, k) == d.tk[i].s < LineE(t, d.br, k) /\ LineS(d.br, k) < d.tk[i].e
+ReadyIn(dd, oi) == \E y \in dd.elems : y.oi = oi /\ y.st = "ready"
+Straddlers(t, d, e, docs) ==
+  {x \in d.elems :
+     /\ ~x.uw /\ x.os >= e.oe /\ x.ce <= e.cs
+     /\ \E k \in {e.lo + 1, e.lc - 1} : TagOnK(t, d, x.oi, k) # TagOnK(t, d, x.ci, k)
+     /\ ~(\E k \in {e.lo + 1, e.lc - 1} : TagOnK(t, d, x.oi, k)) \/ ~(\E k \in {e.lo + 1, e.lc - 1} : TagOnK(t, d, x.ci, k))
+     /\ (\E k \in {e.lo + 1, e.lc - 1} : TagOnK(t, d, x.ci, k)) => AllBlank(Slice(t, LineS(d.br, LineOf(d.br, x.os)), x.os))
+     /\ (\E k \in {e.lo + 1, e.lc - 1} : TagOnK(t, d, x.oi, k)) => AllBlank(Slice(t, x.ce, LineE(t, d.br, LineOf(d.br, x.ce - 1))))
+     /\ \A dd \in docs : ReadyIn(dd, e.oi) => ReadyIn(dd, x.oi)}
+WrapperLineTolerable(t, d, e, k, docs) ==
+  LET xs == {x \in d.elems : LineOf(d.br, x.os) = k /\ LineOf(d.br, x.ce - 1) = k}
+      ss == Straddlers(t, d, e, docs)
+  IN /\ Cardinality(ss) <= 1
+     /\ \A x \in ss : e.m - (LineOf(d.br, x.ce - 1) - LineOf(d.br, x.os)) >= 2
+     /\ \A i \in 1..Len(d.tk) : (d.tk[i].k = 1 /\ TagOnK(t, d, i, k)) => \E x \in xs \cup ss : x.oi = i \/ x.ci = i
+     /\ \E p \in LineS(d.br, k)..(LineE(t, d.br, k) - 1) : ~IsBlank(t[p + 1]) /\ \A x \in xs \cup ss : ~(x.os <= p /\ p < x.ce)
+WrapperLinesTolerable(t, d, docs) ==
+  \A e \in d.elems : (e.uw /\ e.m >= 2) =>
+     /\ (TagTouchesLine(t, d, e.lo + 1) => WrapperLineTolerable(t, d, e, e.lo + 1, docs))
+     /\ (TagTouchesLine(t, d, e.lc - 1) => WrapperLineTolerable(t, d, e, e.lc - 1, docs))
+
 (***************************************************************************)
 (* Line integrity (C11 first sentence, C13 first sentence): the non-blank  *)
 (* lines of the result are the surviving non-blank lines of the source, in *)
